@@ -230,9 +230,9 @@ def check_C09(tier):
 # ---------------------------------------------------------------------------
 # C10: fault enumeration over the position of the failing target call
 # ---------------------------------------------------------------------------
-VAL_FAULTS = ["exception", "exception2", "exception3", "nan", "nan0d", "inf", "-inf", "complex", "vector", "none",
+VAL_FAULTS = ["exception", "exception2", "exception3", "exception4", "nan", "nan0d", "inf", "-inf", "complex", "vector", "none",
               "complex_arr", "complex0d", "complex_np", "inf_arr"]
-SPEC_FAULTS = ["exception", "exception2", "exception3", "pair_nan", "pair_inf", "not_pair", "triple", "sd_zero", "sd_neg",
+SPEC_FAULTS = ["exception", "exception2", "exception3", "exception4", "pair_nan", "pair_inf", "not_pair", "triple", "sd_zero", "sd_neg",
                "sd_nan", "sd_inf", "sd_zero_arr", "none", "pair_complex_arr", "sd_complex_arr", "sd_neg_arr"]
 
 
@@ -302,7 +302,22 @@ def check_C14run(tier):
 
 
 def check_C15(tier):
-    return run_level_check("C15", tier, ["core_det", "core_noisy", "cons", "optvar2"], design_cfgs=())
+    # "whenever the surrogate is (re)fitted": also when fit attempts fail and the retry path shrinks its working copy
+    # of the training set (consecutive LinAlgErrors injected at GP.fit, as in C16)
+    from . import scenarios as S
+    box = S.box_geom(2, x0=[2.0, -1.0])
+    tq = {"family": "quad", "min": [0.5, 0.8], "eig": [1.0, 6.0], "rot_seed": 9}
+    fscs = []
+    pats = [(1, 2), (2, 3), (5, 6, 7), (3, 4, 5, 6)] if tier == "quick" else \
+        [(1, 2), (2, 3), (4, 5), (5, 6, 7), (3, 4, 5, 6), (1, 2, 3), (6, 7), (2, 3, 4, 5)]
+    for mode in ("det", "declared", "specified"):
+        noise = {"mode": mode, "sigma": 0.3, "sd_kind": "hetero" if mode == "specified" else "const"}
+        for p in pats:
+            fscs.append({"id": f"h_{mode}_" + "_".join(map(str, p)), "D": 2, "geom": box, "target": tq, "noise": noise,
+                         "cons": None, "options": {"max_fun_evals": 70, "noise_final_samples": 2}, "seed": 21,
+                         "faults": {"fit": list(p)}, "tags": ["fitfault", mode, f"n{len(p)}"]})
+    return run_level_check("C15", tier, ["core_det", "core_noisy", "cons", "optvar2"], design_cfgs=(),
+                           extra_panels=[("c15faults", fscs)])
 
 
 def check_C17run(tier):
